@@ -75,6 +75,10 @@ const (
 	vPoisonBadValue
 	vPoisonNonCriticalBad
 	vPoisonEmpty
+	vPoisonLenContent  // NULL tag with a non-empty body: 05 03 de ad 42
+	vPoisonConstructed // constructed NULL: 25 00
+	vPoisonLongLen     // non-minimal length: 05 81 00
+	vPoisonKinds
 )
 
 const (
@@ -151,6 +155,12 @@ func vIssue(s vSpec) *vCert {
 		tmpl.ExtraExtensions = append(tmpl.ExtraExtensions, pkix.Extension{Id: vOIDPoison, Critical: false, Value: []byte{4, 0}})
 	case vPoisonEmpty:
 		tmpl.ExtraExtensions = append(tmpl.ExtraExtensions, pkix.Extension{Id: vOIDPoison, Critical: true, Value: []byte{}})
+	case vPoisonLenContent:
+		tmpl.ExtraExtensions = append(tmpl.ExtraExtensions, pkix.Extension{Id: vOIDPoison, Critical: true, Value: []byte{5, 3, 0xde, 0xad, 0x42}})
+	case vPoisonConstructed:
+		tmpl.ExtraExtensions = append(tmpl.ExtraExtensions, pkix.Extension{Id: vOIDPoison, Critical: true, Value: []byte{0x25, 0}})
+	case vPoisonLongLen:
+		tmpl.ExtraExtensions = append(tmpl.ExtraExtensions, pkix.Extension{Id: vOIDPoison, Critical: true, Value: []byte{5, 0x81, 0}})
 	}
 	if s.customExt {
 		tmpl.ExtraExtensions = append(tmpl.ExtraExtensions, pkix.Extension{Id: vOIDCustom, Critical: false, Value: []byte{4, 1, 7}})
